@@ -253,15 +253,15 @@ type g1Node struct {
 }
 
 type g1Stats struct {
-	States, Transitions, Infra, KnownPruned, Killed int
-	Shapes                                          map[[5]int]int
-	PerCfg                                          map[string][2]int
-	Depth                                           int
-	Exhaustive                                      bool
-	Cap                                             string
-	Samples                                         []any
-	Violations                                      []foundViolation
-	Known                                           map[string]int
+	States, Transitions, Infra, KnownPruned, Killed, Skipped int
+	Shapes                                                   map[[5]int]int
+	PerCfg                                                   map[string][2]int
+	Depth                                                    int
+	Exhaustive                                               bool
+	Cap                                                      string
+	Samples                                                  []any
+	Violations                                               []foundViolation
+	Known                                                    map[string]int
 }
 
 type foundViolation struct {
@@ -273,6 +273,9 @@ type foundViolation struct {
 func runG1(prop, tier string) (*g1Stats, *G1Spec) {
 	sp := g1Specs[prop](tier)
 	pool := NewPool()
+	if sp.Deadline > 0 {
+		pool.Deadline = time.Now().Add(sp.Deadline)
+	}
 	findings := loadFindings()
 	st := &g1Stats{Shapes: map[[5]int]int{}, PerCfg: map[string][2]int{}, Exhaustive: true, Known: map[string]int{}}
 	start := time.Now()
@@ -287,6 +290,10 @@ func runG1(prop, tier string) (*g1Stats, *G1Spec) {
 	}
 	handle := func(node g1Node, res JobResult, next *[]g1Node) {
 		cfg := sp.Configs[node.cfg]
+		if res.Skipped {
+			st.Skipped++
+			return
+		}
 		if res.Crashed || res.Err != "" {
 			// isolate: re-run every candidate step separately in fresh workers
 			v := isolateCrash(pool, sp, prop, tier, node, res)
@@ -369,6 +376,12 @@ func runG1(prop, tier string) (*g1Stats, *G1Spec) {
 		var next []g1Node
 		for i, r := range results {
 			handle(frontier[i], r, &next)
+		}
+		if st.Skipped > 0 {
+			st.Exhaustive = false
+			st.Cap = fmt.Sprintf("deadline %v reached inside depth %d: %d of %d frontier states of that level were not expanded (complete to depth %d)", sp.Deadline, depth+1, st.Skipped, len(frontier), depth)
+			fmt.Fprintf(os.Stderr, "[%s %s] %s\n", prop, tier, st.Cap)
+			break
 		}
 		st.Depth = depth + 1
 		fmt.Fprintf(os.Stderr, "[%s %s] depth %d: frontier %d -> %d, states %d, transitions %d, violations %d, %.0fs\n",
